@@ -268,6 +268,49 @@ def c_multivector(ctx, case):
                      f"multivector came back as a different object")
 
 
+@check("C08.reentrant")
+def c_reentrant(ctx, case):
+    """A rule table that expands its rules on demand: the substitution function, asked for a
+    name, runs THE SAME mapper on the rule's body before handing it out (so the mapper is
+    re-entered in the middle of a traversal).  Every inner run is an ordinary substitution:
+    the outcome is the expression with every rule expanded all the way."""
+    e, rules, cached = case
+
+    def expand_ref(x, depth=0):
+        # independent model: replace names by their fully expanded bodies
+        return refsub(x, [(k, expand_ref(v, depth + 1)) for k, v in rules.items()]) if depth < 8 else x
+    want = expand_ref(e)
+    table = {}
+
+    def subst_func(node):
+        if isinstance(node, p.Variable) and node.name in rules:
+            if node.name not in table:
+                table[node.name] = mapper(rules[node.name])      # re-enters the mapper
+            return table[node.name]
+        return None
+    mapper = (CachedSubstitutionMapper if cached else SubstitutionMapper)(subst_func)
+    ctx.case(None)
+    ctx.count("reentrant_substitutions")
+    try:
+        got = mapper(e)
+        got2 = mapper(e)
+    except RecursionError:
+        raise
+    except Exception as ex:  # noqa: BLE001
+        ctx.fail("C08.reentrant", case, f"reentrant:raised:{type(ex).__name__}",
+                 f"rules {_m(rules)} expanded on demand by re-entering the mapper on {G.src(e)}: "
+                 f"{type(ex).__name__}: {ex}")
+        return
+    for g, which in ((got, "first"), (got2, "second")):
+        if not ref_eq(g, want):
+            ctx.fail("C08.reentrant", case, f"reentrant:{'cached' if cached else 'plain'}",
+                     f"rules {_m(rules)} expanded on demand (the substitution function runs the same "
+                     f"mapper on a rule body while the mapper is traversing {G.src(e)}); {which} call "
+                     f"gives {G.src(g)}, every rule expanded gives {G.src(want)}; table "
+                     f"{ {k: G.src(v) for k, v in table.items()} }")
+            return
+
+
 @check("C08.tablehistory")
 def c_tablehistory(ctx, case):
     """The table of assignments is the CALLER's: using it (through make_subst_func, a mapper or
@@ -536,6 +579,18 @@ def workload(ctx):
                 for d in ({"x": p.Product((2, Y_))}, {"x": Y_, "y": X_}, {X_: p.Sum((Y_, 1))}):
                     ctx.case(("mv", n, where, normal.typed_key(tuple(d.items()))), True, n=0)
                     ctx.run("C08.multivector", (coeffs, d))
+        W_ = p.Variable("w")
+        rule_sets = [{"x": p.Sum((Y_, 1)), "y": p.Product((2, Z_))},
+                     {"x": p.Sum((Y_, Z_)), "y": p.Power(Z_, 2), "z": p.Sum((W_, 3))},
+                     {"x": p.Product((Y_, Y_)), "y": p.Call(p.Variable("f"), (Z_,)), "z": 5},
+                     {"x": p.Subscript(p.Variable("a"), Y_), "y": p.Sum((Z_, W_))}]
+        for i, rules in enumerate(rule_sets):
+            for e in (X_, p.Sum((X_, Y_)), p.Product((X_, p.Sum((X_, Z_)), Y_)), p.Power(p.Sum((Y_, X_)), 2),
+                      p.If(p.Comparison(X_, "<", Y_), X_, Z_), p.Sum((Z_, Y_, X_)), p.Call(p.Variable("g"), (Y_, X_, Z_))):
+                for cached in (False, True):
+                    if ctx.mine("reentrant"):
+                        ctx.case(("reentrant", i, normal.typed_key(e), cached), True, n=0)
+                        ctx.run("C08.reentrant", (e, rules, cached))
         ag = G.AnyGen(rng, hist=ctx.hist, names="xyzab")
         for i in range(ctx.per_shard(ctx.pick(4000, 80000))):
             ag.pool = []
@@ -598,6 +653,7 @@ def workload(ctx):
             ctx.count("handler:" + k, v)
     ctx.floor("stream:rows", 500)
     ctx.floor("multivector_substitutions", 200)
+    ctx.floor("reentrant_substitutions", 50)
     ctx.floor("stream:row_address_reused", 100)
     ctx.count("replacement_values_of_special_kinds", sum(hist_kinds.values()))
     ctx.floor("replacement_values_of_special_kinds", 300)
